@@ -30,6 +30,8 @@ ALPHABET = {
     "=_arg1": ("i32", "plain", 0, "_arg1"),
     "r#=arg0": ("i32", "raw", 0, "arg0"),
     "N(=fn)": ("N", "destr", 0, FN),
+    "N(=fn_)": ("N", "destr", 0, FN + "_"),
+    "N(_u)": ("N", "destr", 0, "_und"),      # a single binding whose name starts with an underscore
     "r#=fn": ("i32", "raw", 0, FN),
     "mut =fn": ("i32", "mut", 0, FN),
     "ref =fn": ("i32", "ref", 0, FN),
@@ -37,7 +39,7 @@ ALPHABET = {
     "N(r#kw)": ("N", "destr", 0, "r#type"),
     "&r#id": ("refi", "destr", 0, "r#v_raw"),
 }
-SPECIAL_ONCE = {"mut =fn", "ref =fn", "N(r#kw)", "&r#id", "r#=arg0", "=fn", "=fn_", "=fn__", "=arg0", "=arg1", "=_arg1", "N(=fn)", "r#=fn"}
+SPECIAL_ONCE = {"N(_u)", "N(=fn_)", "mut =fn", "ref =fn", "N(r#kw)", "&r#id", "r#=arg0", "=fn", "=fn_", "=fn__", "=arg0", "=arg1", "=_arg1", "N(=fn)", "r#=fn"}
 
 
 def valid(lst):
